@@ -177,6 +177,12 @@ def falsify_program(ctx, case: Dict) -> bool:
                     if gone & others:
                         bad = {"relation": "purge-removes-entries-of-another-indicator"}
                         break
+                    # ... and every entry of the purged indicator's own tree (helper series at any depth) is gone
+                    mine = owned_names(h.indicators[op2[1]])
+                    left = set().union(*all_keys(h)) & (mine - others) if all_keys(h) else set()
+                    if left:
+                        bad = {"relation": "purge-leaves-entries-of-the-purged-indicator"}
+                        break
             if bad:
                 raise StopIteration
             stage = "final-calculate"
